@@ -256,3 +256,123 @@ Proof.
   change (2 ^ 32) with 4294967296 in Ha. rewrite (val_octs4 a Ha) in M.
   cbn [N.mul] in M. exact M.
 Qed.
+
+(* ------------------------------------------------------------------ the reader on the model's own patterns *)
+Lemma dotdec_not_star o r : str_eqb (dotdec o ++ r) [c_star] = false.
+Proof. unfold dotdec. rewrite <- app_assoc. apply dec3_not_star. Qed.
+
+Lemma prange4_dotted : forall pre w acc, octets_ok pre ->
+  prange4 (length pre + S w) acc (flat_map dotdec pre ++ [c_star]) =
+  Some ((acc * p256 (length pre) + val pre) * p256 (S w), (acc * p256 (length pre) + val pre + 1) * p256 (S w)).
+Proof.
+  induction pre as [|o pre IH]; intros w acc Hok.
+  - cbn [length flat_map app Nat.add prange4 str_eqb]. rewrite N.eqb_refl. cbn [andb val p256].
+    rewrite N.mul_1_r, N.add_0_r. reflexivity.
+  - inversion Hok as [|? ? Ho Hok']; subst.
+    cbn [length flat_map Nat.add]. rewrite <- app_assoc. cbn [prange4].
+    rewrite dotdec_not_star. rewrite Nat.add_succ_r. rewrite read_octet_dot_dotdec by exact Ho.
+    rewrite <- Nat.add_succ_r. rewrite IH by exact Hok'. cbn [val p256].
+    replace ((acc * 256 + o) * p256 (length pre) + val pre)
+      with (acc * (256 * p256 (length pre)) + (o * p256 (length pre) + val pre)) by ring.
+    reflexivity.
+Qed.
+
+Lemma prange4_full : forall pre o acc, octets_ok pre -> o < 256 ->
+  prange4 (length pre + 1) acc (flat_map dotdec pre ++ dec3 o) =
+  Some ((acc * p256 (length pre) + val pre) * 256 + o, (acc * p256 (length pre) + val pre) * 256 + o + 1).
+Proof.
+  induction pre as [|o' pre IH]; intros o acc Hok Ho.
+  - cbn [length flat_map app Nat.add prange4].
+    rewrite <- (app_nil_r (dec3 o)) at 1. rewrite dec3_not_star.
+    destruct (find_octet_dec3 o Ho) as [t ->]. cbn [val p256]. rewrite N.mul_1_r, N.add_0_r. reflexivity.
+  - inversion Hok as [|? ? Ho' Hok']; subst.
+    cbn [length flat_map Nat.add]. rewrite <- app_assoc. cbn [prange4].
+    rewrite dotdec_not_star. rewrite Nat.add_1_r. rewrite read_octet_dot_dotdec by exact Ho'.
+    rewrite <- Nat.add_1_r. rewrite IH by assumption. rewrite Nat.add_1_r. cbn [val p256].
+    replace ((acc * 256 + o') * p256 (length pre) + val pre)
+      with (acc * (256 * p256 (length pre)) + (o' * p256 (length pre) + val pre)) by ring.
+    reflexivity.
+Qed.
+
+Lemma join_dot_flat l : l <> [] ->
+  join [c_dot] (map dec3 l) ++ [c_dot; c_star] = flat_map dotdec l ++ [c_star].
+Proof.
+  induction l as [|x l IH]; intros H; [congruence|].
+  destruct l as [|y l].
+  - cbn [map join flat_map]. unfold dotdec. rewrite app_nil_r, <- app_assoc. reflexivity.
+  - change (join [c_dot] (map dec3 (x :: y :: l))) with (dec3 x ++ [c_dot] ++ join [c_dot] (map dec3 (y :: l))).
+    change (flat_map dotdec (x :: y :: l)) with (dotdec x ++ flat_map dotdec (y :: l)).
+    unfold dotdec at 1. rewrite <- !app_assoc. f_equal. f_equal.
+    apply IH. discriminate.
+Qed.
+
+Lemma show4_flat a : show4 a = flat_map dotdec (firstn 3 (octs4 a)) ++ dec3 (a mod 256).
+Proof. unfold show4, octs4, dotdec. cbn [firstn map join flat_map]. rewrite <- !app_assoc. reflexivity. Qed.
+
+Lemma octs4_prefix_val a : a < 4294967296 ->
+  val (firstn 0 (octs4 a)) = a / 4294967296 /\
+  val (firstn 1 (octs4 a)) = a / 16777216 /\
+  val (firstn 2 (octs4 a)) = a / 65536 /\
+  val (firstn 3 (octs4 a)) = a / 256.
+Proof.
+  intros H. unfold octs4. cbn [firstn val length p256].
+  pose proof (N.div_mod (a / 256) 256 ltac:(discriminate)) as E1.
+  pose proof (N.div_mod (a / 65536) 256 ltac:(discriminate)) as E2.
+  pose proof (N.div_mod (a / 16777216) 256 ltac:(discriminate)) as E3.
+  rewrite N.div_div in E1 by discriminate. change (256 * 256) with 65536 in E1.
+  rewrite N.div_div in E2 by discriminate. change (65536 * 256) with 16777216 in E2.
+  rewrite N.div_div in E3 by discriminate. change (16777216 * 256) with 4294967296 in E3.
+  rewrite (N.div_small a 4294967296 H) in *.
+  repeat split; lia.
+Qed.
+
+Ltac norm256 :=
+  change (256 * (256 * (256 * (256 * 1)))) with 4294967296 in *;
+  change (256 * (256 * (256 * 1))) with 16777216 in *;
+  change (256 * (256 * 1)) with 65536 in *;
+  change (256 * 1) with 256 in *.
+
+Lemma ok_firstn k : forall l, octets_ok l -> octets_ok (firstn k l).
+Proof.
+  induction k as [|k IH]; intros l H; [constructor|].
+  destruct H; cbn [firstn]; constructor; auto. apply IH. assumption.
+Qed.
+
+(* the reader applied to pattern wg of subnet address sub gives the block [sub, sub + 256^(4-wg)) *)
+Lemma pattern_range4_pat4 (wg : nat) sub : (wg <= 4)%nat -> sub < 4294967296 ->
+  sub mod p256 (4 - wg) = 0 ->
+  pattern_range4 (pat4 (N.of_nat wg) sub) = Some (sub, sub + p256 (4 - wg)).
+Proof.
+  intros Hw Hs Hm.
+  destruct (octs4_prefix_val sub Hs) as [V0 [V1 [V2 V3]]].
+  pose proof (octs4_ok sub) as Hok.
+  assert (Hpre : forall k, octets_ok (firstn k (octs4 sub))) by (intros k; apply ok_firstn; exact Hok).
+  pose proof (N.div_mod sub (p256 (4 - wg))) as DM. rewrite Hm, N.add_0_r in DM.
+  specialize (DM ltac:(pose proof (p256_pos (4 - wg)); lia)).
+  unfold pattern_range4.
+  destruct wg as [|[|[|[|[|wg]]]]]; try lia.
+  - change (pat4 (N.of_nat 0) sub) with (flat_map dotdec (firstn 0 (octs4 sub)) ++ [c_star]).
+    change (prange4 4 0) with (prange4 (length (firstn 0 (octs4 sub)) + 4) 0).
+    rewrite (prange4_dotted (firstn 0 (octs4 sub)) 3 0 (Hpre _)).
+    cbn [Nat.sub p256 firstn length octs4] in *. norm256. rewrite V0 in *. cbn [firstn length p256]. norm256. f_equal. f_equal; lia.
+  - change (pat4 (N.of_nat 1) sub) with (join [c_dot] (map dec3 (firstn 1 (octs4 sub))) ++ [c_dot; c_star]).
+    rewrite join_dot_flat by (unfold octs4; discriminate).
+    change (prange4 4 0) with (prange4 (length (firstn 1 (octs4 sub)) + 3) 0).
+    rewrite (prange4_dotted (firstn 1 (octs4 sub)) 2 0 (Hpre _)).
+    cbn [Nat.sub p256 firstn length octs4] in *. norm256. rewrite V1 in *. f_equal. f_equal; lia.
+  - change (pat4 (N.of_nat 2) sub) with (join [c_dot] (map dec3 (firstn 2 (octs4 sub))) ++ [c_dot; c_star]).
+    rewrite join_dot_flat by (unfold octs4; discriminate).
+    change (prange4 4 0) with (prange4 (length (firstn 2 (octs4 sub)) + 2) 0).
+    rewrite (prange4_dotted (firstn 2 (octs4 sub)) 1 0 (Hpre _)).
+    cbn [Nat.sub p256 firstn length octs4] in *. norm256. rewrite V2 in *. f_equal. f_equal; lia.
+  - change (pat4 (N.of_nat 3) sub) with (join [c_dot] (map dec3 (firstn 3 (octs4 sub))) ++ [c_dot; c_star]).
+    rewrite join_dot_flat by (unfold octs4; discriminate).
+    change (prange4 4 0) with (prange4 (length (firstn 3 (octs4 sub)) + 1) 0).
+    rewrite (prange4_dotted (firstn 3 (octs4 sub)) 0 0 (Hpre _)).
+    cbn [Nat.sub p256 firstn length octs4] in *. norm256. rewrite V3 in *. f_equal. f_equal; lia.
+  - change (pat4 (N.of_nat 4) sub) with (show4 sub). rewrite show4_flat.
+    change (prange4 4 0) with (prange4 (length (firstn 3 (octs4 sub)) + 1) 0).
+    rewrite (prange4_full (firstn 3 (octs4 sub)) (sub mod 256) 0 (Hpre _)) by (apply N.mod_lt; discriminate).
+    rewrite V3. pose proof (N.div_mod sub 256 ltac:(discriminate)).
+    cbn [Nat.sub p256 firstn length octs4] in *. norm256. f_equal. f_equal; lia.
+Qed.
